@@ -108,7 +108,8 @@ ConformCounts == Is("Min") /\ ~cur.crashed =>
   /\ cur.r_killed = Cardinality(Killed(cur.out, cur.col))
 ConformOrder == Is("Min") /\ ~cur.crashed =>
   \A t \in Tests : \A i, j \in DOMAIN cur.rem[t] : i < j => cur.rem[t][i] < cur.rem[t][j]
-ConformExceptionKept == Is("Min") /\ ~cur.crashed =>
+\* (docstring of __minimize_assertions; the plain removal drops exception assertions that kill nothing)
+ConformExceptionKept == Is("Min") /\ ~cur.crashed /\ cur.minimize =>
   \A t \in Tests : ToSet(cur.xonly[t]) \subseteq Rem(t)
 EmptyPopulation == IF Is("Score") THEN cur.c - cur.t - cur.u = 0
                    ELSE Is("Min") /\ Scored(cur.out, cur.col) = {}
